@@ -1,0 +1,20 @@
+//go:build verif
+
+// Package verifc53 re-exports, for the verification harness only, entry
+// points of internal packages that another module cannot import.
+package verifc53
+
+import (
+	"bytes"
+
+	"github.com/go-git/go-git/v6/internal/revision"
+)
+
+// ParseRevision does what internal/revision.FuzzParser does: build a parser
+// over the input and parse it. The parsed items are dropped (their types are
+// internal); only the error is returned.
+func ParseRevision(data []byte) error {
+	parser := revision.NewParser(bytes.NewBuffer(data))
+	_, err := parser.Parse()
+	return err
+}
